@@ -585,7 +585,7 @@ def run(ctx):
                     desc = dict(seed=s.label, mutation="none", key_class=clsname, loader=loader, passphrase="right")
                     if wrongtype:  # a real case: a file of the wrong type must be refused with SSHException
                         ctx.case(("wrongtype", s.label, loader, clsname),
-                                 sample=dict(desc, file_text=s.data.decode("latin-1")[:400]) if loader == "file" and "k1" in s.label else None)
+                                 sample=dict(desc, file_text=s.data.decode("latin-1")[:400]) if loader == "file" and "k1" in s.label and clsname == "ECDSAKey" and ctx.shard == 0 else None)
                         r = load_case(ctx, tmpdir, s.data, clsname, loader, s.password, desc)
                         ctx.count("wrongtype_loads_" + r)
                         continue
